@@ -109,7 +109,13 @@ pub fn outcome_json(spec: &Spec, out: &Outcome, with_obs: bool, with_orders: boo
         "family": spec.family,
         "form": spec.form.name(),
         "colour": spec.colour.name(),
-        "launcher": if spec.tier == Tier::Exec { spec.launcher.as_str() } else { "thread" },
+        "launcher": if spec.tier == Tier::Exec {
+            spec.launcher.as_str()
+        } else if spec.mode == "main" && sim_inproc::real_main_available() {
+            "thread:real-main-run"
+        } else {
+            "thread:stages"
+        },
         "file_hash": format!("{:016x}", fnv(&spec.source)),
         "file_len": spec.source.len(),
         "status": out.status,
@@ -149,7 +155,11 @@ pub fn worker_main(args: &Args) -> i32 {
     let corpus = sim_harvest::harvest(&args.repo);
     let envs = envs_from(args);
     let stdin = std::io::stdin();
-    let stdout = std::io::stdout();
+    // Replies go to a private duplicate of fd 1; fd 1 and fd 2 themselves are pointed at
+    // /dev/null so that they can be redirected to capture files while gram's `run` prints.
+    let Some(mut reply_channel) = sim_inproc::detach_stdout() else {
+        return 2;
+    };
     for line in stdin.lock().lines() {
         let Ok(line) = line else { break };
         if line.trim().is_empty() {
@@ -189,8 +199,7 @@ pub fn worker_main(args: &Args) -> i32 {
             }
             _ => continue,
         };
-        let mut lock = stdout.lock();
-        if writeln!(lock, "{reply}").is_err() || lock.flush().is_err() {
+        if writeln!(reply_channel, "{reply}").is_err() || reply_channel.flush().is_err() {
             break;
         }
     }
